@@ -45,7 +45,9 @@ Local Close Scope N_scope.
 Definition dec (s : string) : text := utf8_decode (unhex s).
 
 (* ---- cases ---- *)
-Inductive kind := KTerm | KBuffered | KVirtual (size : nat).
+(* KTermDec: the TermWriter, judged on a terminal with the DEC last-column flag (recorded finding
+   C20-dec-margin: fails when an emitted text is exactly as wide as the terminal) *)
+Inductive kind := KTerm | KTermDec | KBuffered | KVirtual (size : nat).
 
 Record inp := mkinp { i_kind : kind; i_cfg : cfg; i_ups : list (nat * text) }.
 
@@ -58,18 +60,20 @@ Definition mk (k : kind) (tr : bool) (cols : Z) (ups : list (N * string)) : inp 
 
 Definition cT (tr : bool) (cols : Z) (ups : list (N * string)) (segs : list string) : inp * option obs :=
   (mk KTerm tr cols ups, Some (mkobs (map dec segs) [] 0)).
+Definition cD (tr : bool) (cols : Z) (ups : list (N * string)) (segs : list string) : inp * option obs :=
+  (mk KTermDec tr cols ups, Some (mkobs (map dec segs) [] 0)).
 Definition cB (tr : bool) (cols : Z) (ups : list (N * string)) (segs : list string) : inp * option obs :=
   (mk KBuffered tr cols ups, Some (mkobs (map dec segs) [] 0)).
 Definition cV (size : N) (tr : bool) (cols : Z) (ups : list (N * string)) (out : string)
               (lines : list string) (count : N) : inp * option obs :=
   (mk (KVirtual (N.to_nat size)) tr cols ups, Some (mkobs [dec out] (map dec lines) (N.to_nat count))).
 Definition cP (k : N) (size : N) (tr : bool) (cols : Z) (ups : list (N * string)) : inp * option obs :=
-  (mk (match k with 0%N => KTerm | 1%N => KBuffered | _ => KVirtual (N.to_nat size) end) tr cols ups, None).
+  (mk (match k with 0%N => KTerm | 1%N => KBuffered | 3%N => KTermDec | _ => KVirtual (N.to_nat size) end) tr cols ups, None).
 
 Definition model (i : inp) : option obs :=
   let c := i_cfg i in
   match i_kind i with
-  | KTerm => Some (mkobs (map render (tw_session c (i_ups i))) [] 0)
+  | KTerm | KTermDec => Some (mkobs (map render (tw_session c (i_ups i))) [] 0)
   | KBuffered =>
       match bt_session (autotrim c) (cols c) (i_ups i) with
       | Ok (out, _) => Some (mkobs (map (fun _ => []) (i_ups i) ++ [out]) [] 0)
@@ -85,7 +89,7 @@ Definition model (i : inp) : option obs :=
   end.
 
 (* the width of the reference terminal used by the comparison and by the check *)
-Definition tc_of (c : cfg) (nl : bool) : tcfg := mktc (Z.to_nat (cols c)) nl.
+Definition tc_of (c : cfg) (nl dc : bool) : tcfg := mktc (Z.to_nat (cols c)) nl dc.
 
 (* TermWriter: the implementation's bytes may differ from the model's as long as the reference
    terminal shows the same screen (cells, cursor position, cursor visibility) after every call *)
@@ -102,8 +106,10 @@ Fixpoint screens_eq (tc : tcfg) (ea eb : scr * pst) (a b : list text) : bool :=
 
 Definition obs_eqb (i : inp) (a b : obs) : bool :=
   match i_kind i with
-  | KTerm => (screens_eq (tc_of (i_cfg i) false) (scr0, Ground) (scr0, Ground) (o_segs a) (o_segs b)
-              && screens_eq (tc_of (i_cfg i) true) (scr0, Ground) (scr0, Ground) (o_segs a) (o_segs b))%bool
+  | KTerm | KTermDec =>
+      (screens_eq (tc_of (i_cfg i) false false) (scr0, Ground) (scr0, Ground) (o_segs a) (o_segs b)
+       && screens_eq (tc_of (i_cfg i) true false) (scr0, Ground) (scr0, Ground) (o_segs a) (o_segs b)
+       && screens_eq (tc_of (i_cfg i) false true) (scr0, Ground) (scr0, Ground) (o_segs a) (o_segs b))%bool
   | _ => (list_eqb text_eqb (o_segs a) (o_segs b) && list_eqb text_eqb (o_lines a) (o_lines b)
           && Nat.eqb (o_count a) (o_count b))%bool
   end.
@@ -139,8 +145,14 @@ Definition check (i : inp) (o : option obs) : bool :=
   | None => false
   | Some o =>
       match i_kind i with
-      | KTerm => (C20_check_live (tc_of c false) c (i_ups i) (o_segs o)
-                  && C20_check_live (tc_of c true) c (i_ups i) (o_segs o))%bool
+      | KTerm => (C20_check_live (tc_of c false false) c (i_ups i) (o_segs o)
+                  && C20_check_live (tc_of c true false) c (i_ups i) (o_segs o)
+                  (* DEC margin: only histories whose texts are narrower than the terminal *)
+                  && C20_check_live (tc_of c false true) c (i_ups i) (o_segs o)
+                  && C20_check_live (tc_of c true true) c (i_ups i) (o_segs o))%bool
+      | KTermDec => (* DEC margin, every history whose texts fit (also: exactly as wide) *)
+                  (C20_check_live_g (tc_of c false false) (tc_of c false true) c (i_ups i) (o_segs o)
+                   && C20_check_live_g (tc_of c true false) (tc_of c true true) c (i_ups i) (o_segs o))%bool
       | KBuffered =>
           (C20_check_buffered c (i_ups i) (List.concat (o_segs o))
            && forallb (fun s => match s with [] => true | _ => false end) (removelast (o_segs o)))%bool
